@@ -51,7 +51,7 @@ func (g *c22Gen) target(kind rc.OpKind) int {
 	case rc.OpASN1:
 		set = []int{126, 127, 128, 129, 254, 255, 256, 257, 65534, 65535, 65536, 65537}
 	}
-	t := rapid.SampledFrom(set).Draw(g.rt, "target")
+	t := set[uni(g.rt, "target", len(set))]
 	if t > 60000 && !g.big {
 		t = t%512 + 1
 	}
@@ -62,16 +62,22 @@ func (g *c22Gen) target(kind rc.OpKind) int {
 // directly to this builder that are still at its end (what Unwrite may take).
 func (g *c22Gen) ops(depth int, inCont bool, tail *int) []*rc.Op {
 	maxW := 10
-	if depth >= 3 {
-		maxW = 4
+	if depth >= 2 {
+		maxW = 5
 	}
-	n := rapid.IntRange(0, maxW).Draw(g.rt, "width")
+	if depth >= 4 {
+		maxW = 3
+	}
+	n := uni(g.rt, "width", maxW+1)
+	if depth == 0 && n == 0 {
+		n = rapid.IntRange(0, 1).Draw(g.rt, "width0")
+	}
 	var out []*rc.Op
 	for i := 0; i < n && g.nOps < 120; i++ {
 		g.nOps++
-		r := rapid.IntRange(0, 999).Draw(g.rt, "op")
+		r := uni(g.rt, "op", 1000)
 		if g.errRate > 0 && r < g.errRate {
-			switch k := rapid.IntRange(0, 3).Draw(g.rt, "errKind"); {
+			switch k := uni(g.rt, "errKind", 4); {
 			case k == 0:
 				out = append(out, &rc.Op{Kind: rc.OpSetError})
 			case k == 1:
@@ -113,7 +119,7 @@ func (g *c22Gen) ops(depth int, inCont bool, tail *int) []*rc.Op {
 				continue
 			}
 			var kind rc.OpKind
-			switch k := rapid.IntRange(0, 9).Draw(g.rt, "innerKind"); {
+			switch k := uni(g.rt, "innerKind", 10); {
 			case k < 4:
 				kind = rc.OpASN1
 			case k < 6:
@@ -125,7 +131,7 @@ func (g *c22Gen) ops(depth int, inCont bool, tail *int) []*rc.Op {
 			default:
 				kind = rc.OpLP32
 			}
-			op := &rc.Op{Kind: kind, Read: rapid.IntRange(0, 3).Draw(g.rt, "readVariant")}
+			op := &rc.Op{Kind: kind, Read: uni(g.rt, "readVariant", 4)}
 			if kind == rc.OpASN1 {
 				op.Tag = rapid.Byte().Draw(g.rt, "tag")
 				if op.Tag&0x1f == 0x1f { // high-tag-number form is an error event, generated separately
@@ -136,7 +142,7 @@ func (g *c22Gen) ops(depth int, inCont bool, tail *int) []*rc.Op {
 			op.Body = g.ops(depth+1, true, &ktail)
 			panicked := len(op.Body) > 0 && c22EndsInPanic(op.Body)
 			// pad the content to a boundary
-			if !panicked && rapid.IntRange(0, 99).Draw(g.rt, "pad") < 55 {
+			if !panicked && uni(g.rt, "pad", 100) < 55 {
 				if cur, ok := rc.ContentLen(op.Body); ok {
 					t := g.target(kind)
 					if d := t - cur; d >= 0 && d <= g.budget {
@@ -638,18 +644,18 @@ func TestC22(t *testing.T) {
 
 	rapid.Check(t, func(rt *rapid.T) {
 		g := &c22Gen{rt: rt, budget: 3000}
-		if rapid.IntRange(0, 99).Draw(rt, "bigProgram") < 12 {
+		if uni(rt, "bigProgram", 100) < 12 {
 			g.big = true
 			g.budget = 300000
 		}
-		if rapid.IntRange(0, 99).Draw(rt, "errProgram") < 18 {
+		if uni(rt, "errProgram", 100) < 18 {
 			g.errRate = rapid.SampledFrom([]int{10, 30, 80}).Draw(rt, "errRate")
 		}
 		tail := 0
 		ops := g.ops(0, false, &tail)
 		cs := &c22Case{ops: ops, capa: -1}
 		free := rc.RunModel(ops, 0, -1)
-		switch k := rapid.IntRange(0, 9).Draw(rt, "builderKind"); {
+		switch k := uni(rt, "builderKind", 10); {
 		case k == 0:
 			cs.kind = "zero"
 		case k <= 2:
@@ -660,7 +666,7 @@ func TestC22(t *testing.T) {
 		default:
 			cs.initial = rapid.SampledFrom([]int{0, 0, 1, 5}).Draw(rt, "initial")
 			peak := free.Peak + cs.initial
-			switch m := rapid.IntRange(0, 9).Draw(rt, "capMode"); {
+			switch m := uni(rt, "capMode", 10); {
 			case m < 4:
 				cs.kind, cs.capa = "fixed-exact", peak
 			case m < 8:
@@ -689,6 +695,9 @@ func TestC22(t *testing.T) {
 		}
 		nontrivial := st.asn1InLP || st.lpInASN1 || st.longForm || exp.Err != ""
 		classes := []string{"builder:" + cs.kind, "verdict:" + verdict, fmt.Sprintf("depth:%d", st.depth)}
+		if exp.Err == "" {
+			classes = append(classes, fmt.Sprintf("ok-depth:%d", st.depth))
+		}
 		if st.asn1InLP {
 			classes = append(classes, "nest:asn1-in-lp")
 		}
